@@ -52,7 +52,7 @@ theorem uponRoundChange_sim (cfg : Cfg) {s s' : State} (m : Msg) (h : Sim s s') 
   have hw1 : WF { s with roundChange := R0 } := hwf
   have hj := hasReceivedProposalJustification_sim cfg hS1 m hm
   have hfr1 : forRound R1 s.round = forRound R0 s.round := agree_forRound hag (Nat.le_refl _)
-  have hab : R1.filter (fun x => decide (x.round > s.round)) = R0.filter (fun x => decide (x.round > s.round)) :=
+  have hab : R1.filter (fun x => Nat.blt s.round x.round) = R0.filter (fun x => Nat.blt s.round x.round) :=
     agree_above hag (Nat.le_succ _)
   simp only [withC] at hj hfr ⊢
   simp only [hfr]
